@@ -632,6 +632,17 @@ inline int runOnce(const Sub &sub, Tape &t, Ctx &ctx)
         S.failure = f;
         S.failTrace = t.trace();
         return 1;
+    } catch (const std::exception &e) {
+        // an exception escaping the code under test (the harness bodies throw nothing but the types above): in the real
+        // program it would leave an event handler and terminate the process
+        Failure f { std::string(sub.name) + " uncaught-exception " + e.what(), std::string("an exception escaped the code under test: ") + e.what() };
+        if (ctx.isKnown(f.sig))
+            return 2;
+        auto &S = st();
+        S.haveFailure = true;
+        S.failure = f;
+        S.failTrace = t.trace();
+        return 1;
     }
     return 0;
 }
